@@ -18,7 +18,7 @@ namespace SkVerif.C14
 open SkVerif SkVerif.C14
 
 /-- at least one instance, every instance has at least one column (what `check_X` demands) -/
-abbrev WellShaped (X : Panel) : Prop := Lem.WellShaped X
+abbrev WellShaped {α : Type} (X : PanelOf α) : Prop := Lem.WellShaped X
 /-- every instance has `nc` columns (a DataFrame / 3-D array is rectangular in its columns) -/
 abbrev Columns (X : Panel) (nc : Nat) : Prop := Lem.Columns X nc
 /-- within each column all series are equally long -/
@@ -27,19 +27,21 @@ abbrev ColumnsEqualLength (X : Panel) (nc : Nat) : Prop := Lem.ColumnsEqualLengt
 /-! ## Padding -/
 
 /-- `_get_max_length` really is the length of the longest series of the panel. -/
-theorem maxLength_is_longest (X : Panel) (h : WellShaped X) : Spec.IsMaxLength X (maxLength X) :=
+theorem maxLength_is_longest {α : Type} (X : PanelOf α) (h : WellShaped X) : Spec.IsMaxLength X (maxLength X) :=
   Lem.maxLength_isMax h
 
 /-- PaddingTransformer with a requested length `p` at least the longest series: every cell becomes
-its own values followed by the fill value up to length `p`; unequal lengths allowed. -/
-theorem pad_eq_spec_requested (p : Int) (fill : Rat) (Xfit X : Panel)
+its own values followed by the fill value up to length `p`; unequal lengths allowed.  Generic in the
+value type `α`: rationals, or `Option Rat` when the fill value or observations may be NaN; integer and
+float32 cells are the same numbers (the code always allocates a float64 cell). -/
+theorem pad_eq_spec_requested {α : Type} (p : Int) (fill : α) (Xfit X : PanelOf α)
     (hf : WellShaped Xfit) (hX : WellShaped X) (hp : (maxLength X : Int) ≤ p) :
     pad (some p) fill Xfit X = .ok (Spec.pad p.toNat fill X) := by
   simp only [pad, padFit, Lem.checkX_ok hf, bind, Except.bind, pure, Except.pure]
   exact Lem.padTransform_eq_spec p fill X hX hp
 
 /-- PaddingTransformer without a requested length pads to the longest series seen in `fit`. -/
-theorem pad_eq_spec_longest (fill : Rat) (Xfit X : Panel)
+theorem pad_eq_spec_longest {α : Type} (fill : α) (Xfit X : PanelOf α)
     (hf : WellShaped Xfit) (hX : WellShaped X) (hp : maxLength X ≤ maxLength Xfit) :
     pad none fill Xfit X = .ok (Spec.pad (maxLength Xfit) fill X) := by
   simp only [pad, padFit, Lem.checkX_ok hf, bind, Except.bind, pure, Except.pure]
@@ -47,11 +49,11 @@ theorem pad_eq_spec_longest (fill : Rat) (Xfit X : Panel)
   simpa using this
 
 /-- a padded series is the series followed by copies of the fill value -/
-theorem pad_cell_is_series_then_fill (L : Nat) (fill : Rat) (c : Cell) (h : c.length ≤ L) :
+theorem pad_cell_is_series_then_fill {α : Type} (L : Nat) (fill : α) (c : List α) (h : c.length ≤ L) :
     Spec.padCell L fill c = c ++ List.replicate (L - c.length) fill := Lem.padCell_prefix L fill c h
 
 /-- a series longer than the fitted / requested length is rejected, never cut -/
-theorem pad_rejects_longer (L : Int) (fill : Rat) (X : Panel) (hX : WellShaped X)
+theorem pad_rejects_longer {α : Type} (L : Int) (fill : α) (X : PanelOf α) (hX : WellShaped X)
     (h : L < (maxLength X : Int)) : padTransform L fill X = .error .value :=
   Lem.padTransform_rejects L fill X hX h
 
@@ -94,7 +96,7 @@ theorem truncate_rejects_shorter (lo : Int) (upper : Option Int) (X : Panel)
 /-! ## Output lengths and rows for padding / truncation -/
 
 /-- padding returns exactly the requested length in every cell, whatever the input lengths -/
-theorem pad_output_lengths_exact (L : Nat) (fill : Rat) (X : Panel) :
+theorem pad_output_lengths_exact {α : Type} (L : Nat) (fill : α) (X : PanelOf α) :
     ∀ inst ∈ Spec.pad L fill X, ∀ c ∈ inst, c.length = L := by
   intro inst hi c hc
   obtain ⟨i0, _, rfl⟩ := List.mem_map.mp hi
@@ -111,7 +113,7 @@ theorem truncate_output_lengths_exact (lo hi : Nat) (X : Panel) (h : hi ≤ minL
 
 /-- one output row per instance, in input order, each with the same columns: row `i` of the output is
 the transformed row `i` of the input (padding). -/
-theorem pad_rows_preserved_in_order (L : Nat) (fill : Rat) (X : Panel) (i : Nat) :
+theorem pad_rows_preserved_in_order {α : Type} (L : Nat) (fill : α) (X : PanelOf α) (i : Nat) :
     (Spec.pad L fill X).length = X.length ∧
     (Spec.pad L fill X)[i]? = (X[i]?).map (fun inst => inst.map (Spec.padCell L fill)) := by
   simp [Spec.pad]
@@ -552,5 +554,10 @@ example : iseg (.count 3) [[[1, 2, 3, 4, 5, 6, 7]]] [[[1, 2, 3, 4, 5, 6, 7]]] = 
   decide +kernel
 example : impute .drift none none [none, some 5, some (-1)] = .ok [some 6, some 5, some (-1)] := by decide +kernel
 example : impute .ffill none (some 0) [some 3, some 0, some 0] = .ok [some 3, some 3, some 3] := by decide +kernel
+-- integer-valued cells padded with a NaN / fractional fill value (values in `Option Rat`, `none` = NaN)
+example : pad (α := Option Rat) none none [[[some 1, some 2, some 3]], [[some 9]]] [[[some 1, some 2, some 3]], [[some 9]]]
+    = .ok [[[some 1, some 2, some 3]], [[some 9, none, none]]] := by decide
+example : pad (some 3) (some (1 / 2 : Rat)) [[[some 4]]] [[[some 4]]] = .ok [[[some 4, some (1 / 2), some (1 / 2)]]] := by
+  decide +kernel
 
 end SkVerif.C14
